@@ -62,7 +62,7 @@ def gen(ctx: common.Ctx, n_hist: int, steps: tuple[int, int], all_configs: bool,
 def gen_corpus(ctx: common.Ctx, n: int) -> Iterator[dict[str, Any]]:
     from checks.c20 import clean_flags
     cases = [c for c in corpus.load(["check-incremental.test", "fine-grained*.test"])
-             if c.steps and not corpus.uses_fixture_only_features(c) and not c.cmd]
+             if c.steps and not corpus.uses_fixture_only_features(c) and not c.cmd and not corpus.has_config_files(c)]
     import random
     rng = random.Random("C02-core-corpus")
     rng.shuffle(cases)
